@@ -24,6 +24,7 @@ HARNESS = os.path.join(VERIF, "harness")
 REPO = os.environ.get("VERIF_REPO", "/repo")
 GO125 = "/root/go/pkg/mod/golang.org/toolchain@v0.0.1-go1.25.0.linux-amd64/bin/go"
 NCPU = os.cpu_count() or 4
+REPLAYS = os.environ.get("VERIF_REPLAY_DIR", os.path.join(VERIF, "replays"))
 
 # per property: test name, level, quick (shards, soft budget s), thorough (shards, soft budget s), race build
 CHECKS = {
@@ -70,6 +71,14 @@ def build(prop, spec, workdir):
     # go.sum of the harness = go.sum of the repository + the harness' own deps.
     binpath = os.path.join(workdir, "checks.test")
     cmd = [go, "test", "-c", "-tags", "verif", "-o", binpath]
+    if os.path.realpath(REPO) != "/repo":
+        # Sensitivity runs against a scratch copy of the repository: same
+        # harness sources, alternative module file with another replace target.
+        mod = open(os.path.join(HARNESS, "go.mod")).read().replace("=> /repo", "=> " + os.path.realpath(REPO))
+        modfile = os.path.join(workdir, "alt.mod")
+        open(modfile, "w").write(mod)
+        shutil.copy(os.path.join(HARNESS, "go.sum"), os.path.join(workdir, "alt.sum"))
+        cmd.append("-modfile=" + modfile)
     if spec.get("race"):
         cmd.append("-race")
     cmd.append("./checks")
@@ -82,7 +91,7 @@ def build(prop, spec, workdir):
 
 
 def merge(prop, spec, tier, seed, results, wall, outputs):
-    ev_path = os.path.join(VERIF, "evidence", prop + ".json")
+    ev_path = os.path.join(os.environ.get("VERIF_EVIDENCE_DIR", os.path.join(VERIF, "evidence")), prop + ".json")
     nt = set()
     classes, excluded, extra = {}, {}, {}
     evaluations = skipped = 0
@@ -173,7 +182,7 @@ def run_check(prop, tier, replay=None):
             os.makedirs(sdir)
             e.update(VERIF_TIER=tier, VERIF_OUT=out, VERIF_SHARD=str(sh), VERIF_SHARDS=str(shards),
                      VERIF_SEED=str(seed), VERIF_DEADLINE=str(deadline), VERIF_SCRATCH=sdir,
-                     VERIF_REPLAY_DIR=os.path.join(VERIF, "replays"),
+                     VERIF_REPLAY_DIR=REPLAYS,
                      VERIF_KNOWN=os.path.join(VERIF, "known_findings.json"),
                      GORACE="halt_on_error=0 log_path=" + os.path.join(workdir, "race-%d" % sh))
             if replay:
@@ -211,7 +220,7 @@ def run_check(prop, tier, replay=None):
                 # The test binary failed for a reason that is not a recorded violation.
                 if REPO_PANIC.search(text) and "go-storethehash" in text:
                     # An escaped panic on one of the store's own goroutines.
-                    rp = os.path.join(VERIF, "replays", prop, "crash-%s-s%d-%d.txt" % (tier, seed, sh))
+                    rp = os.path.join(REPLAYS, prop, "crash-%s-s%d-%d.txt" % (tier, seed, sh))
                     os.makedirs(os.path.dirname(rp), exist_ok=True)
                     open(rp, "w").write(text[-20000:])
                     res.setdefault("violations", []).append(dict(property=prop, signature="process-panic", detail="test process died with a panic in module frames", replay=rp))
